@@ -11,6 +11,8 @@ A *spec* is a plain JSON-able dict (so that every case replays exactly):
   pops:    [name, ...]
   transfers: [{name, units: "rate"|"number"|"probability"|"duration", pairs: [[from, to, value], ...]}]
   settings: [start, end, dt]
+  programs: (optional) {"start": year, "progs": [{name, target_comps, spend, unit_cost, continuous: bool}],
+                        "covouts": [{par, pop, baseline, progs: {prog: outcome}}]}   -> ProgramSet + ProgramInstructions (see `build_programs`)
 """
 from __future__ import annotations
 
@@ -141,11 +143,34 @@ def build(spec, with_settings=True):
     return fw, data, parset, settings
 
 
+def build_programs(spec, fw, data):
+    """spec["programs"] -> (ProgramSet, ProgramInstructions): program outcomes overwrite the targeted parameters from `start` on"""
+    import atomica as at
+
+    ps_ = spec["programs"]
+    start = spec["settings"][0]
+    pset = at.ProgramSet.new(framework=fw, data=data, progs={g["name"]: g["name"].upper() + " program" for g in ps_["progs"]}, tvec=np.array([start]))
+    for g in ps_["progs"]:
+        prog = pset.programs[g["name"]]
+        prog.target_pops = list(spec["pops"])
+        prog.target_comps = list(g["target_comps"])
+        prog.spend_data.insert(start, float(g["spend"]))
+        prog.unit_cost.insert(start, float(g["unit_cost"]))
+        if g.get("continuous", True):
+            prog.unit_cost.units = "$/person/year"
+    for c in ps_["covouts"]:
+        pset.covouts[(c["par"], c["pop"])] = at.programs.Covout(par=c["par"], pop=c["pop"], progs=dict(c["progs"]), baseline=float(c["baseline"]))
+    pset.validate()
+    return pset, at.ProgramInstructions(start_year=float(ps_["start"]))
+
+
 def run(spec, progset=None, instructions=None, capture_preflush=False):
     """Build and process a Model; returns the processed Model (kept linked, with _exec_order)."""
     from atomica.model import Model
 
     fw, data, parset, settings = build(spec)
+    if progset is None and spec.get("programs"):
+        progset, instructions = build_programs(spec, fw, data)
     m = Model(settings, fw, parset, progset, instructions)
     m._verif_parset = parset
     pre = {}
@@ -211,6 +236,14 @@ def _series(r, regime, fmt, start):
 def random_spec(r, regime="calibrated", features=None):
     """
     features (all optional, default random): junctions, residual, timed, source, sinks, transfers, functions, npops, chain
+    junction-specific (C04; consume random numbers only when given, so other streams are unchanged):
+      jinit   probability that a junction is initialised through the databook (default 0.3)
+      jtv     probability that a junction proportion is a time-varying series
+      jfunc   probability that a junction proportion is a function of model state
+      jgroup  True: add 1-2 junctions INSIDE duration group 0 (inflow and outflows within the group; needs timed >= 1)
+      jshape  "chain" | "fan" | "diamond": force that shape on the first junctions (needs junctions >= 2 / 1 / 4)
+      progs   True: a ProgramSet whose outcomes overwrite 1-2 junction proportions from some index on (spec["programs"])
+      max_rows  clamp durations so that timed compartments have at most this many rows
     """
     f = dict(features or {})
     n_norm = f.get("n_norm", r.randint(2, 5))
@@ -245,7 +278,7 @@ def random_spec(r, regime="calibrated", features=None):
         return {pop: (0.0 if r.random() < zero_p else round(lo + r.random() * (hi - lo), 2)) for pop in pops}
 
     for c in norm:
-        comps.append({"name": c, "kind": "normal", "databook": True, "init": popvals(10, 1000)})
+        comps.append({"name": c, "kind": "normal", "databook": True, "init": popvals(10, 1000, f.get("zero_init", 0.15))})
     # duration groups
     timed_comps = {}
     groups = []
@@ -254,6 +287,8 @@ def random_spec(r, regime="calibrated", features=None):
         if f.get("group_size"):  # C05: force the number of compartments per duration group
             n_mem = f["group_size"]
         members = [f"t{g}{i}" for i in range(n_mem)]
+        if f.get("jgroup") and g == 0 and len(members) < 2:
+            members = [f"t{g}0", f"t{g}1"] + ([f"t{g}2"] if r.random() < 0.3 else [])
         groups.append(members)
         dpar = newpar("duration", timed=True, timescale=r.choice([None, None, 1 / 12, 1 / 52]))
         if f.get("duration") is not None:
@@ -267,6 +302,12 @@ def random_spec(r, regime="calibrated", features=None):
             k = r.choice([1, 2, 3, 4, 6])
             ts = dpar["timescale"] or 1.0
             dpar["value"] = {pop: (k * dt) / ts * r.choice([1.0, 1.0, 1.3, 0.6]) for pop in pops}
+        if f.get("max_rows"):
+            # keep the keyring short (C04 does not need thousands of rows; one exact model step costs ~7 s CPU for 10^4 rows)
+            ts_ = dpar["timescale"] or 1.0
+            for pop in pops:
+                if dpar["value"][pop] * ts_ / dt > f["max_rows"]:
+                    dpar["value"][pop] = f["max_rows"] * dt / ts_ * r.choice([1.0, 0.9, 0.5])
         for mname in members:
             comps.append({"name": mname, "kind": "normal", "databook": True, "init": popvals(5, 300)})
             timed_comps[mname] = dpar["name"]
@@ -278,14 +319,14 @@ def random_spec(r, regime="calibrated", features=None):
         comps.append({"name": "src", "kind": "source"})
     juncs = [f"j{i}" for i in range(n_junc)]
     for j in juncs:
-        jinit = r.random() < 0.3
+        jinit = r.random() < f.get("jinit", 0.3)
         comps.append({"name": j, "kind": "junction", "databook": jinit, "init": popvals(5, 100, 0.3) if jinit else None})
 
     stocks = norm + list(timed_comps)
     # ordinary transitions
-    n_tr = r.randint(max(1, len(stocks) - 1), len(stocks) + 3)
+    n_tr = r.randint(max(1, len(stocks) - 1), len(stocks) + 3) + f.get("n_tr_extra", 0)
     for _ in range(n_tr):
-        fmt = r.choice(["rate", "probability", "duration", "number", "rate"])
+        fmt = r.choice(f.get("formats", ["rate", "probability", "duration", "number", "rate"]))
         p = newpar(fmt)
         srcs = r.sample(stocks, r.choice([1, 1, 1, 2]) if len(stocks) > 1 else 1)
         for s in srcs:
@@ -308,22 +349,41 @@ def random_spec(r, regime="calibrated", features=None):
         p = newpar("number")
         trans.append(["src", r.choice(stocks), p["name"]])
     # junction outflows (acyclic: only to later junctions)
-    for i, j in enumerate(juncs):
-        # ensure some inflow
-        if not any(t[1] == j for t in trans):
-            p = newpar(r.choice(["rate", "probability"]))
-            trans.append([r.choice(stocks), j, p["name"]])
-        n_out = r.choice([1, 2, 2, 3])
-        dests = r.sample([x for x in stocks + sinks + juncs[i + 1:]], min(n_out, len(stocks + sinks + juncs[i + 1:])))
-        residual = f.get("residual", r.random() < 0.4) and len(dests) >= 2
+    def jprop(share):
+        """a proportion parameter for a junction out-link: constant, time-varying series or function of model state"""
+        p = newpar("proportion")
+        p["value"] = {pop: round(share, 4) for pop in pops}
+        if "jtv" in f or "jfunc" in f:
+            x = r.random()
+            if x < f.get("jfunc", 0.0):
+                a, b = r.choice(stocks), r.choice(stocks)
+                forms = [f"{a}/({a}+{b}+1)", f"max(0,1-{b}/(alive+1))", f"{round(share, 3)}+0*t", f"{round(share, 3)}*{a}/({a}+1)", f"min(1,{b}/(alive+1))"]
+                if regime != "calibrated":
+                    forms += [f"2*{a}/(alive+1)", f"0*{a}"]
+                p["function"] = r.choice(forms)
+                p["databook"] = False
+                p["value"] = {}
+            elif x < f.get("jfunc", 0.0) + f.get("jtv", 0.0):
+                for pop in pops:
+                    n = r.choice([2, 3, 4])
+                    ts = sorted(r.sample([start - 1, start, start + dt, start + 2 * dt, start + 0.5, start + 1, start + 2, start + 4], n))
+                    if regime == "calibrated":
+                        vs = [round(min(1.0, max(0.0, share * r.choice([0.5, 1.0, 1.5]))), 4) for _ in ts]
+                    else:
+                        vs = [r.choice([0.0, round(share, 4), 1.0, round(share * 0.5, 4), 0.25]) for _ in ts]
+                    p["value"][pop] = {"t": ts, "v": vs, "assumption": None}
+        return p
+
+    def joutflows(j, dests, residual):
         shares = [r.random() + 0.05 for _ in dests]
         tot = sum(shares)
         mode = r.choice(["eq1", "lt1", "gt1", "zero_some", "near1", "near1"]) if regime != "calibrated" else r.choice(["eq1", "eq1", "lt1", "gt1", "near1"])
+        if f.get("zero_props") and not residual and r.random() < f["zero_props"]:
+            mode = "zero_all"
         for k, d in enumerate(dests):
             if residual and k == len(dests) - 1:
                 trans.append([j, d, ">"])
                 continue
-            p = newpar("proportion")
             share = shares[k] / tot
             if mode == "lt1":
                 share *= 0.6
@@ -331,12 +391,59 @@ def random_spec(r, regime="calibrated", features=None):
                 share *= 1.7
             elif mode == "zero_some" and k == 0 and len(dests) > 1:
                 share = 0.0
-            p["value"] = {pop: round(share, 4) for pop in pops}
-            if mode == "near1":
+            elif mode == "zero_all":
+                share = 0.0
+            p = jprop(share)
+            if mode == "near1" and not p.get("function"):
                 # proportions entered with limited precision: sum within 1e-6 of 1 but not exactly 1 (thirds as 0.3333333, sevenths ...)
                 nd = len(dests) - (1 if residual else 0)
                 p["value"] = {pop: round(1.0 / max(nd, 1), 7) + (1e-7 if (k == 0 and nd in (1, 2, 4, 5)) else 0.0) for pop in pops}
             trans.append([j, d, p["name"]])
+
+    shape = f.get("jshape")
+    for i, j in enumerate(juncs):
+        # ensure some inflow
+        if not any(t[1] == j for t in trans):
+            p = newpar(r.choice(["rate", "probability"]))
+            trans.append([r.choice(stocks), j, p["name"]])
+        later = juncs[i + 1:]
+        forced = None
+        if shape == "chain" and later and i < 3:
+            forced = [later[0]]  # j_i -> j_{i+1} (chains up to 4 junctions), plus possibly other destinations
+        elif shape == "diamond" and len(juncs) >= 4:
+            forced = {0: [juncs[1], juncs[2]], 1: [juncs[3]], 2: [juncs[3]]}.get(i)
+        elif shape == "fan" and i == 0:
+            forced = later[:2]
+        if forced is not None:
+            others = [x for x in stocks + sinks if True]
+            extra = r.sample(others, min(len(others), r.choice([0, 1, 1, 2]) if shape != "fan" else r.choice([1, 2])))
+            dests = forced + extra
+            r.shuffle(dests)
+        else:
+            n_out = r.choice([1, 2, 2, 3])
+            pool = [x for x in stocks + sinks + later]
+            dests = r.sample(pool, min(n_out, len(pool)))
+        residual = f.get("residual", r.random() < 0.4) and len(dests) >= 2
+        joutflows(j, dests, residual)
+    # junctions inside duration group 0 (all inflows and outflows within the group => TimedLinks, row-wise balancing)
+    if f.get("jgroup") and n_groups >= 1:
+        g0par = next(iter(timed_comps.values()))
+        g0 = [c for c in timed_comps if timed_comps[c] == g0par]
+        gj = [f"g{i}" for i in range(r.choice([1, 1, 2]))]
+        for i, j in enumerate(gj):
+            jinit = r.random() < f.get("jinit", 0.3)
+            comps.append({"name": j, "kind": "junction", "databook": jinit, "init": popvals(5, 100, 0.3) if jinit else None})
+            if i == 0 or r.random() < 0.5:
+                p = newpar(r.choice(["rate", "probability", "duration"]))
+                for s_ in r.sample(g0, r.choice([1, 1, 2])):
+                    trans.append([s_, j, p["name"]])
+            pool = g0 + gj[i + 1:]
+            dests = r.sample(pool, min(len(pool), r.choice([1, 2, 2, 3])))
+            if i + 1 < len(gj) and gj[i + 1] not in dests:
+                dests.append(gj[i + 1])  # chain inside the group
+            residual = f.get("residual", r.random() < 0.4) and len(dests) >= 2
+            joutflows(j, dests, residual)
+        juncs = juncs + gj
     # C05: a junction inside a duration group (all inflows and outflows in the same group -> TimedLinks through it)
     if f.get("group_junction"):
         for g, members in enumerate(groups):
@@ -369,6 +476,8 @@ def random_spec(r, regime="calibrated", features=None):
             a, b = r.choice(stocks), r.choice(stocks)
             k = _val(r, regime if regime != "extreme" else "calibrated", p["format"])
             forms = [f"{k}*{a}/max(alive,1)", f"{k}*(1+{a}/(alive+1))", f"{k}*max(0,1-{b}/(alive+1))", f"{k}+0*t", f"{k}*({a}-{b})/(alive+1)" if regime == "extreme" else f"{k}*{a}/({a}+{b}+1)"]
+            if f.get("neg_fn"):
+                forms = forms + [f"{k}*({a}-{b})/(alive+1)", f"{k}*(1-2*{b}/(alive+1))"] * 2
             p["function"] = r.choice(forms)
             p["databook"] = False
             p["value"] = {}
@@ -410,6 +519,23 @@ def random_spec(r, regime="calibrated", features=None):
         if pairs:
             transfers.append({"name": "tra0", "units": units, "pairs": pairs})
     spec = {"comps": comps, "characs": characs, "pars": [p for p in pars if p["name"] in used or p.get("timed")], "transitions": trans, "pops": pops, "transfers": transfers, "interactions": interactions, "settings": [start, end, dt], "regime": regime}
+    # programs overwriting junction proportions (C04: "program-driven")
+    if f.get("progs"):
+        jnames = {c["name"] for c in comps if c["kind"] == "junction"}
+        cand = [p for p in pars if p["format"] == "proportion" and p["name"] in used and not p["function"] and any(t[0] in jnames and t[2] == p["name"] for t in trans)]
+        if cand:
+            targets = r.sample(cand, min(len(cand), r.choice([1, 1, 2])))
+            progs = []
+            for i in range(r.choice([1, 1, 2])):
+                progs.append({"name": f"prg{i}", "target_comps": r.sample(norm, r.choice([1, 1, min(2, len(norm))])), "spend": r.choice([0.0, 50.0, 500.0, 5000.0]),
+                              "unit_cost": r.choice([1.0, 2.5, 10.0]), "continuous": r.random() < 0.7})
+            covouts = []
+            for p in targets:
+                p["targetable"] = True
+                for pop in pops:
+                    outs = {g["name"]: (r.choice([0.0, 1.0, 0.5]) if regime != "calibrated" else round(r.random(), 3)) for g in progs if r.random() < 0.8} or {progs[0]["name"]: 0.5}
+                    covouts.append({"par": p["name"], "pop": pop, "baseline": r.choice([0.0, 0.1, round(r.random(), 3)]), "progs": outs})
+            spec["programs"] = {"start": start + r.choice([0, 1, 2, 3]) * dt, "progs": progs, "covouts": covouts}
     # timed flag bookkeeping: a timed parameter that lost its link is dropped
     spec["pars"] = [p for p in spec["pars"] if p["name"] in used]
     return spec
